@@ -82,7 +82,9 @@ def _case(draw, tier):
             "drop_decoy": drop_decoy,
             "known_order": "mirror", "conf_chunk": draw(st.sampled_from([None, 2, 5])),
             "fmt": draw(st.sampled_from(["tsv", "tsv", "parquet"])),
-            "extra_levels": draw(st.sampled_from([[], [], ["PeptideGroup"], ["ModifiedPeptide", "PeptideGroup"], ["Precursor"]]))}
+            "extra_levels": draw(st.sampled_from([[], [], ["PeptideGroup"], ["ModifiedPeptide", "PeptideGroup"], ["Precursor"]])),
+            "reuse_proteins": draw(st.sampled_from([False, True])),
+            "direct_index": draw(st.sampled_from(["default", "sorted", "reversed", "offset"]))}
 
 
 def strategy(tier):
@@ -311,6 +313,21 @@ def check(case):
         out = tmp / "out"
         out.mkdir()
         before = (dict(prot.peptide_map), dict(prot.shared_peptides), dict(prot.protein_map))
+        if case.get("reuse_proteins") and n >= 4:
+            # history: the same Proteins object served another peptide table before (several files analysed one after the
+            # other, a threshold sweep ...); only the observed run below is judged
+            half = df.iloc[: n // 2].reset_index(drop=True)
+            ppath = tmp / ("pre.parquet" if case.get("fmt") == "parquet" else "pre.pin")
+            datagen.write_table(half, ppath)
+            pre_out = tmp / "pre_out"
+            pre_out.mkdir()
+            try:
+                with config_inject.chunk_sizes(confidence=case.get("conf_chunk")):
+                    mokapot.assign_confidence([datagen.build_ondisk(ppath, half, meta)], max_workers=1, scores=[np.array(scores[: n // 2], dtype=float)],
+                                              descs=[True], eval_fdr=0.05, dest_dir=pre_out, prefixes=[None], decoys=True, proteins=prot,
+                                              peps_algorithm="verif_stub")
+            except Exception:  # noqa: BLE001  (e.g. no unique peptide in that half: outside the domain, and not the observed run)
+                pass
         with config_inject.chunk_sizes(confidence=case.get("conf_chunk")):
             guarded(mokapot.assign_confidence, [ds], max_workers=1, scores=[np.array(scores, dtype=float)], descs=[True],
                     eval_fdr=0.05, dest_dir=out, prefixes=[None], decoys=True, proteins=prot, peps_algorithm="verif_stub",
@@ -382,7 +399,39 @@ def check(case):
                 f"pair {sorted(pairs[gi]['t'])}: q-value {by_pair[gi]['q-value']} != {qref[gi]} over the {len(order)} entries")
         pep = float(by_pair[gi]["posterior_error_prob"])
         require(abs(pep - float(config_inject.pep_stub([expected[gi]["score"]])[0])) <= 1e-9, "protein-pep", "PEP is not that of the entry's score")
+    # ---- the picked-protein step called directly, on a peptide table that keeps the index labels of an earlier sort / filter
+    from mokapot.picked_protein import picked_protein
+
+    pep_df = pd.DataFrame({"target": [r["target"] for r in rows], "peptide": [r["dec"] for r in rows], "score": scores})
+    ikind = case.get("direct_index", "default")
+    if ikind == "sorted":
+        pep_df = pep_df.sort_values("score", ascending=False)
+    elif ikind == "reversed":
+        pep_df = pep_df.iloc[::-1]
+    elif ikind == "offset":
+        pep_df.index = pep_df.index + 1000
+    direct = guarded(picked_protein, pep_df, "target", "peptide", "score", prot, 1, sig="picked_protein")
+    seen_pairs = {}
+    for d in direct.to_dict("records"):
+        members = frozenset(str(d["mokapot protein group"]).split(", "))
+        is_t = bool(d["target"])
+        gi = [k for k, pr in enumerate(pairs) if members == (pr["t"] if is_t else pr["d"])]
+        require(len(gi) == 1, "direct-unknown-group", f"picked_protein (index {ikind}): group '{d['mokapot protein group']}' (target={is_t}) is not a protein group of the database")
+        require(gi[0] not in seen_pairs, "direct-pair-split", f"picked_protein (index {ikind}): pair {sorted(pairs[gi[0]]['t'])} has two entries")
+        seen_pairs[gi[0]] = d
+    require(set(seen_pairs) == set(expected), "direct-pair-set",
+            f"picked_protein (index {ikind}): pairs {sorted(seen_pairs)} != pairs with a retained unique peptide {sorted(expected)}")
+    for gi, exp in expected.items():
+        d = seen_pairs[gi]
+        require(bool(d["target"]) == exp["side"] and d["best peptide"] == exp["dec"] and d["stripped sequence"] == exp["stripped"]
+                and float(d["score"]) == exp["score"], "direct-wrong-entry",
+                f"picked_protein (index {ikind}): pair {sorted(pairs[gi]['t'])}: entry ({d['best peptide']}, {d['score']}, target={d['target']}) "
+                f"!= best unique peptide ({exp['dec']}, {exp['score']}, target={exp['side']})")
     classes = [case["route"], case.get("fmt", "tsv")]
+    if ikind != "default":
+        classes.append("direct-call-index-" + ikind)
+    if case.get("reuse_proteins") and n >= 4:
+        classes.append("proteins-object-served-another-table-before")
     if shared_seen:
         classes.append("shared-peptide-observed")
     if both_sides:
